@@ -217,12 +217,14 @@ def run_impl(sc):
                 slots[o[1]] = r
                 if r is not None:
                     objs.append(r)
+                    r.reserved_resources.clear()      # what the getter hands out is the caller's to keep: the reservation is not touched
             elif k == 'release_all':
                 if slots.get(o[1]) is not None:
                     slots[o[1]].release()
             elif k == 'release':
                 if slots.get(o[1]) is not None:
                     slots[o[1]].release(req_dict(o[2]))
+                    slots[o[1]].reserved_resources.clear()
             elif k == 'merge':
                 a, b = slots.get(o[1]), slots.get(o[2])
                 if a is not None and b is not None:
